@@ -71,8 +71,8 @@ func main() {
 	if p == nil {
 		die("unknown property %s", id)
 	}
-	if tier != "quick" && tier != "thorough" {
-		die("tier must be quick or thorough")
+	if tier != "quick" && tier != "thorough" && tier != "determinism" {
+		die("tier must be quick, thorough or determinism")
 	}
 	seed := uint64(1)
 	if s := os.Getenv("VERIF_SEED"); s != "" {
@@ -221,6 +221,83 @@ func main() {
 		}
 		fmt.Printf("not reproduced on this tree (replay ran clean)\n")
 		code = 0
+		return
+	}
+
+	if tier == "determinism" {
+		// the same cases in several processes at GOMAXPROCS 1, 4 and 16: every per-case line must be identical
+		ncases := 300
+		if v := os.Getenv("VERIF_CASES"); v != "" {
+			ncases, _ = strconv.Atoi(v)
+		}
+		type run struct {
+			procs string
+			lines []string
+		}
+		var runs []run
+		var mu sync.Mutex
+		var wg sync.WaitGroup
+		bad := false
+		for rep := 0; rep < 2; rep++ {
+			for _, procs := range []string{"1", "4", "16"} {
+				for shard := 0; shard < 5; shard++ {
+					wg.Add(1)
+					go func(rep int, procs string, shard int) {
+						defer wg.Done()
+						os.Setenv("VERIF_NOOP", "")
+						cfg := wire.Config{Property: id, Tier: "quick", Seed: seed, Shard: shard, MaxCases: ncases / 5, Mode: "hashes"}
+						cfg.Out = filepath.Join(scratch, fmt.Sprintf("det-%d-%s-%d.json", rep, procs, shard))
+						cfg.Scratch = filepath.Join(scratch, fmt.Sprintf("det-%d-%s-%d.d", rep, procs, shard))
+						os.MkdirAll(cfg.Scratch, 0755)
+						j, _ := json.Marshal(cfg)
+						c := exec.Command(bin, "-test.run", "^Test"+id+"$", "-test.timeout", "1h")
+						c.Env = append(os.Environ(), "VERIF_CFG="+string(j), "VERIF_REPO="+repo, "VERIF_DESYNC_BIN=", "GOMAXPROCS="+procs)
+						c.Dir = cfg.Scratch
+						out, err := c.CombinedOutput()
+						b, rerr := os.ReadFile(cfg.Out)
+						var r wire.ShardResult
+						if rerr != nil || json.Unmarshal(b, &r) != nil {
+							mu.Lock()
+							bad = true
+							fmt.Fprintf(os.Stderr, "driver: determinism worker failed: %v\n%s\n", err, tail(string(out), 2000))
+							mu.Unlock()
+							return
+						}
+						mu.Lock()
+						runs = append(runs, run{fmt.Sprintf("rep%d/procs%s/shard%d", rep, procs, shard), r.HashLines})
+						mu.Unlock()
+					}(rep, procs, shard)
+				}
+			}
+		}
+		wg.Wait()
+		ref := map[string]string{} // case seed -> line
+		diverged := 0
+		total := 0
+		for _, r := range runs {
+			for _, l := range r.lines {
+				total++
+				key := strings.SplitN(l, " ", 2)[0]
+				if old, ok := ref[key]; ok {
+					if old != l {
+						diverged++
+						if diverged <= 5 {
+							fmt.Printf("DIVERGED case %s (%s):\n  %s\n  %s\n", key, r.procs, old, l)
+						}
+					}
+				} else {
+					ref[key] = l
+				}
+			}
+		}
+		fmt.Printf("%s determinism: %d distinct cases, %d executions in %d processes at GOMAXPROCS 1/4/16 x 2 repetitions, %d diverged\n", id, len(ref), total, len(runs), diverged)
+		if bad {
+			code = 2
+		} else if diverged > 0 {
+			code = 2
+		} else {
+			code = 0
+		}
 		return
 	}
 
